@@ -33,7 +33,30 @@ use serde_json::json;
 use std::io::{self, BufRead, Write};
 use std::sync::atomic::{AtomicU64, Ordering};
 use std::sync::Arc;
-use verif_lang::common::{guarded, quiet_panics};
+use verif_lang::common::guarded as guarded_msg;
+
+thread_local! {
+    /// file:line of the last panic on this thread (set by the panic hook)
+    static LAST_PANIC_AT: std::cell::RefCell<String> = const { std::cell::RefCell::new(String::new()) };
+}
+
+/// panic hook: silent, records the location
+fn record_panics() {
+    std::panic::set_hook(Box::new(|info| {
+        let at = info.location().map(|l| format!("{}:{}", l.file(), l.line())).unwrap_or_default();
+        LAST_PANIC_AT.with(|c| *c.borrow_mut() = at);
+    }));
+}
+
+/// Run `f`, mapping a panic to Err("<file:line> <message>")
+fn guarded<T>(f: impl FnOnce() -> T) -> Result<T, String> {
+    guarded_msg(f).map_err(|m| {
+        let at = LAST_PANIC_AT.with(|c| c.borrow().clone());
+        // strip the machine-specific prefix of the path
+        let at = at.rsplit_once("/crates/").map(|(_, b)| format!("crates/{b}")).unwrap_or(at);
+        format!("@{at} {m}")
+    })
+}
 
 fn unhex(s: &str) -> Option<String> {
     let s = s.trim();
@@ -317,7 +340,7 @@ fn unsafe_write_stdout(msg: &str) {
 }
 
 fn main() {
-    quiet_panics();
+    record_panics();
     let args: Vec<String> = std::env::args().collect();
     let mode = args.get(1).map(|s| s.as_str()).unwrap_or("cst").to_string();
     let limit: u64 = args.get(2).and_then(|s| s.parse().ok()).unwrap_or(10);
